@@ -35,6 +35,7 @@ Maybe(t) == [k |-> "Maybe", t |-> t]
 Either(l, r) == [k |-> "Either", l |-> l, r |-> r]   \* value [side |-> 0 / 1, v]
 Ref(t) == [k |-> "Ref", t |-> t]
 RefCell == [k |-> "RefCell"]                  \* ^Cell, opaque
+RefAny == [k |-> "RefAny"]                    \* ^T for a type not transcribed here: the reference is taken, only its presence is reported
 AnyRest == [k |-> "AnyRest"]                  \* X = Any at the end of a cell: the rest of the bits and references
 Named(nm) == [k |-> "Named", nm |-> nm]
 HmE(n, t) == [k |-> "HmE", n |-> n, t |-> t]  \* HashmapE n T
@@ -43,10 +44,11 @@ If(fl, t) == [k |-> "If", fl |-> fl, t |-> t]                      \* fl?T with 
 IfBit(fl, bit, t) == [k |-> "IfBit", fl |-> fl, bit |-> bit, t |-> t]   \* flags . bit?T
 RefPick(fl, t0, t1) == [k |-> "RefPick", fl |-> fl, t0 |-> t0, t1 |-> t1]  \* ^(T fl)
 Lite(t) == [k |-> "Lite", t |-> t]            \* same encoding as t; the value generator does not expand variations below it (t is varied on its own)
-HmAug(n, t, x) == [k |-> "HmAug", n |-> n, t |-> t, x |-> x]   \* HashmapAug n T X (non-empty, inline); entries [k, v, x]; fork extras: see ForkExtra
+HmAug(n, t, x) == [k |-> "HmAug", n |-> n, t |-> t, x |-> x]   \* HashmapAug n T X (non-empty, inline); value [es |-> entries [k, v, x], post |-> <<>> or the extras read]
 F(name, t) == [name |-> name, t |-> t]
 Alt(cn, tag, fs) == [c |-> cn, tag |-> tag, fs |-> fs]
 
+IsPrefixOf(a, b) == Len(a) <= Len(b) /\ SubSeq(b, 1, Len(a)) = a
 ByteBits(bs) == BytesToBits(bs)
 Cat(a, b) == [b |-> a.b \o b.b, r |-> a.r \o b.r]
 Only(bits) == [b |-> bits, r |-> <<>>]
@@ -81,17 +83,21 @@ EncT(t, v, ctx) ==
       [] t.k = "Maybe" -> IF v = <<>> THEN Only(<<0>>) ELSE Cat(Only(<<1>>), EncT(t.t, v[1], ctx))
       [] t.k = "Either" -> IF v.side = 0 THEN Cat(Only(<<0>>), EncT(t.l, v.v, ctx)) ELSE Cat(Only(<<1>>), EncT(t.r, v.v, ctx))
       [] t.k = "Ref" -> [b |-> <<>>, r |-> <<EncT(t.t, v, ctx)>>]
-      [] t.k = "RefCell" -> [b |-> <<>>, r |-> <<v>>]
+      [] t.k \in {"RefCell", "RefAny"} -> [b |-> <<>>, r |-> <<v>>]
       [] t.k = "AnyRest" -> v
       [] t.k = "Named" -> EncAlt(AltOf(t.nm, v.c), v)
       [] t.k = "HmE" -> IF v = <<>> THEN Only(<<0>>) ELSE [b |-> <<1>>, r |-> <<DictTree(t.n, t.t, v)>>]
       [] t.k = "Hm" -> DictTree(t.n, t.t, v)
       [] t.k = "Lite" -> EncT(t.t, v, ctx)
       [] t.k = "HmAug" ->
-            LET mp == [key \in {v[i].k : i \in 1..Len(v)} |->
-                         LET e == v[CHOOSE i \in 1..Len(v) : v[i].k = key]
+            LET es == v.es
+                mp == [key \in {es[i].k : i \in 1..Len(es)} |->
+                         LET e == es[CHOOSE i \in 1..Len(es) : es[i].k = key]
                          IN [v |-> EncT(t.t, e.v, e), x |-> EncT(t.x, e.x, e)]]
             IN AugTree(mp, t.n, [d \in 0..t.n |-> EncT(t.x, ForkExtraV(t.x, d), <<>>)], 0)
+      [] t.k = "HmAugE" ->
+            IF v.es = <<>> THEN Cat(Only(<<0>>), EncT(t.x, v.rx, <<>>))
+            ELSE Cat([b |-> <<1>>, r |-> <<EncT([t EXCEPT !.k = "HmAug"], [es |-> v.es, post |-> <<>>], ctx)>>], EncT(t.x, v.rx, <<>>))
       [] t.k = "If" -> IF ctx[t.fl] = <<1>> THEN EncT(t.t, v, ctx) ELSE Only(<<>>)
       [] t.k = "IfBit" -> IF FlagBit(ctx[t.fl], t.bit) = 1 THEN EncT(t.t, v, ctx) ELSE Only(<<>>)
       [] t.k = "RefPick" -> [b |-> <<>>, r |-> <<IF ctx[t.fl] = <<1>> THEN EncT(t.t1, v.v1, ctx) ELSE EncT(t.t0, v.v0, ctx)>>]
@@ -148,6 +154,7 @@ Leaves(t, v, ctx, path) ==
       [] t.k = "Either" -> Leaves(IF v.side = 0 THEN t.l ELSE t.r, v.v, ctx, path)
       [] t.k = "Ref" -> Leaves(t.t, v, ctx, path)
       [] t.k \in {"RefCell", "AnyRest"} -> <<Leaf(path, "Cell", [cell |-> v])>>
+      [] t.k = "RefAny" -> <<Leaf(path, "Present", [present |-> 1])>>
       [] t.k = "Named" ->
             LET a == AltOf(t.nm, v.c) IN
             FoldLeft(LAMBDA acc, f : acc \o Leaves(f.t, v[f.name], v, Append(path, f.name)),
@@ -156,10 +163,15 @@ Leaves(t, v, ctx, path) ==
             <<Leaf(path, "Count", [count |-> Len(v)])>> \o Flat2R(t, v, path, 1)
       [] t.k = "Lite" -> Leaves(t.t, v, ctx, path)
       [] t.k = "HmAug" ->
-            LET mpx == [key \in {v[i].k : i \in 1..Len(v)} |-> (v[CHOOSE i \in 1..Len(v) : v[i].k = key]).x]
-                post == AugPost(mpx, t.n, [d \in 0..t.n |-> ForkExtraV(t.x, d)], 0)
-            IN <<Leaf(path, "Count", [count |-> Len(v)])>> \o Flat2R(t, v, path, 1)
+            LET es == v.es
+                mpx == [key \in {es[i].k : i \in 1..Len(es)} |-> (es[CHOOSE i \in 1..Len(es) : es[i].k = key]).x]
+                \* a value composed by the generator leaves the fork extras to ForkExtraV; a decoded value carries what was read
+                post == IF v.post = <<>> THEN AugPost(mpx, t.n, [d \in 0..t.n |-> ForkExtraV(t.x, d)], 0) ELSE v.post
+            IN <<Leaf(path, "Count", [count |-> Len(es)])>> \o Flat2R(t, es, path, 1)
                \o <<Leaf(path, "AugExtras", [extras |-> [j \in 1..Len(post) |-> Leaves(t.x, post[j], <<>>, <<>>)]])>>
+      [] t.k = "HmAugE" ->           \* (the root extra rx is read by the library but not exposed: no leaf)
+            IF v.es = <<>> THEN <<Leaf(path, "Count", [count |-> 0])>>
+            ELSE Leaves([t EXCEPT !.k = "HmAug"], [es |-> v.es, post |-> v.post], ctx, path)
       [] t.k = "If" -> IF ctx[t.fl] = <<1>> THEN Leaves(t.t, v, ctx, path) ELSE <<Leaf(path, "None", [none |-> 1])>>
       [] t.k = "IfBit" -> IF FlagBit(ctx[t.fl], t.bit) = 1 THEN Leaves(t.t, v, ctx, path) ELSE <<Leaf(path, "None", [none |-> 1])>>
       [] t.k = "RefPick" -> IF ctx[t.fl] = <<1>> THEN Leaves(t.t1, v.v1, ctx, path) ELSE Leaves(t.t0, v.v0, ctx, path)
@@ -170,7 +182,131 @@ Flat2R(t, v, path, i) ==
          \o Leaves(t.t, v[i].v, v[i], Append(path, "#val")) \o Flat2R(t, v, path, i + 1)
 FlattenV(nm, v) == Leaves(Named(nm), v, v, <<>>)
 
+\* ---- decoder: an independent reading of the same schema (parse direction).  A slice is [b |-> remaining bits,
+\* r |-> remaining reference trees]; trees may carry t (exotic cell type, 0 / absent = ordinary).
+\* Result [ok |-> FALSE] or [ok |-> TRUE, v |-> value, sl |-> rest].  Constraints of the schema are enforced
+\* (Zero, UMax, Leq, UPos, tags); a referenced cell must be consumed exactly; exotic cells are not descended into.
+HmAugE(n, t, x) == [k |-> "HmAugE", n |-> n, t |-> t, x |-> x]   \* HashmapAugE n T X: value [es, post, rx (root extra)]
+SlOf(tree) == [b |-> tree.b, r |-> tree.r]
+Bad == [ok |-> FALSE]
+Good(v, sl) == [ok |-> TRUE, v |-> v, sl |-> sl]
+TakeB(sl, n) == [b |-> SubSeq(sl.b, n + 1, Len(sl.b)), r |-> sl.r]
+TakeR(sl, n) == [b |-> sl.b, r |-> SubSeq(sl.r, n + 1, Len(sl.r))]
+EmptySl(sl) == sl.b = <<>> /\ sl.r = <<>>
+IsExotic(tree) == "t" \in DOMAIN tree /\ tree.t # 0
+DecBits(sl, n) == IF Len(sl.b) < n THEN Bad ELSE Good(SubSeq(sl.b, 1, n), TakeB(sl, n))
+AllZero(bits) == \A i \in 1..Len(bits) : bits[i] = 0
+\* comparisons on bit strings of equal length (values may exceed TLC's integers)
+RECURSIVE BitsLeq(_, _)
+BitsLeq(a, b) == IF a = <<>> THEN TRUE ELSE IF a[1] # b[1] THEN a[1] < b[1] ELSE BitsLeq(Tail(a), Tail(b))
+RECURSIVE DecT(_, _, _), DecDict(_, _, _, _), DecAug(_, _, _, _)
+DecFields(a, sl0) ==
+    FoldLeft(LAMBDA acc, f :
+                IF ~acc.ok THEN acc
+                ELSE LET d == DecT(f.t, acc.sl, acc.v) IN
+                     IF ~d.ok THEN Bad ELSE Good(acc.v @@ (f.name :> d.v), d.sl),
+             Good(("c" :> a.c), sl0), a.fs)
+DecT(t, sl, ctx) ==
+    CASE t.k \in {"U", "I", "Bits", "One"} -> DecBits(sl, t.n)
+      [] t.k = "Bool" -> DecBits(sl, 1)
+      [] t.k = "Zero" -> LET d == DecBits(sl, t.n) IN IF d.ok /\ AllZero(d.v) THEN d ELSE Bad
+      [] t.k = "UPos" -> LET d == DecBits(sl, t.n) IN IF d.ok /\ ~AllZero(d.v) THEN d ELSE Bad
+      [] t.k = "UMax" -> LET d == DecBits(sl, t.n) IN IF d.ok /\ BitsLeq(d.v, NatBits(t.m, t.n)) THEN d ELSE Bad
+      [] t.k = "Leq" -> LET w == BitLen(t.n)  d == DecBits(sl, w) IN IF d.ok /\ BitsLeq(d.v, NatBits(t.n, w)) THEN d ELSE Bad
+      [] t.k \in {"VarU", "VarI"} ->
+            LET d == DecBits(sl, BitLen(t.n - 1)) IN
+            IF ~d.ok THEN Bad
+            ELSE LET e == DecBits(d.sl, 8 * BitsNat(d.v)) IN IF ~e.ok THEN Bad ELSE Good(BitsToBytes(e.v), e.sl)
+      [] t.k = "AddrInt" ->
+            LET d == DecBits(sl, 267) IN
+            IF d.ok /\ SubSeq(d.v, 1, 3) = <<1, 0, 0>> THEN Good([wc |-> SubSeq(d.v, 4, 11), hash |-> SubSeq(d.v, 12, 267)], d.sl) ELSE Bad
+      [] t.k = "AddrExt" ->
+            LET d == DecBits(sl, 2) IN
+            IF ~d.ok THEN Bad
+            ELSE IF d.v = <<0, 0>> THEN Good(<<>>, d.sl)
+            ELSE IF d.v # <<0, 1>> THEN Bad
+            ELSE LET l == DecBits(d.sl, 9) IN
+                 IF ~l.ok THEN Bad ELSE LET a == DecBits(l.sl, BitsNat(l.v)) IN IF ~a.ok THEN Bad ELSE Good(<<a.v>>, a.sl)
+      [] t.k = "CC" ->
+            LET g == DecT(VarU(16), sl, ctx) IN
+            IF ~g.ok THEN Bad
+            ELSE LET o == DecT(HmE(32, VarU(32)), g.sl, ctx) IN IF ~o.ok THEN Bad ELSE Good([grams |-> g.v, other |-> o.v], o.sl)
+      [] t.k = "Maybe" ->
+            LET d == DecBits(sl, 1) IN
+            IF ~d.ok THEN Bad
+            ELSE IF d.v = <<0>> THEN Good(<<>>, d.sl)
+            ELSE LET e == DecT(t.t, d.sl, ctx) IN IF ~e.ok THEN Bad ELSE Good(<<e.v>>, e.sl)
+      [] t.k = "Either" ->
+            LET d == DecBits(sl, 1) IN
+            IF ~d.ok THEN Bad
+            ELSE LET e == DecT(IF d.v = <<0>> THEN t.l ELSE t.r, d.sl, ctx) IN
+                 IF ~e.ok THEN Bad ELSE Good([side |-> d.v[1], v |-> e.v], e.sl)
+      [] t.k = "Ref" ->
+            IF sl.r = <<>> \/ IsExotic(sl.r[1]) THEN Bad
+            ELSE LET d == DecT(t.t, SlOf(sl.r[1]), ctx) IN IF d.ok /\ EmptySl(d.sl) THEN Good(d.v, TakeR(sl, 1)) ELSE Bad
+      [] t.k \in {"RefCell", "RefAny"} -> IF sl.r = <<>> THEN Bad ELSE Good(sl.r[1], TakeR(sl, 1))
+      [] t.k = "AnyRest" -> Good([b |-> sl.b, r |-> sl.r], [b |-> <<>>, r |-> <<>>])
+      [] t.k = "Lite" -> DecT(t.t, sl, ctx)
+      [] t.k = "Named" ->
+            LET as == Schema[t.nm]
+                fit == {i \in 1..Len(as) : IsPrefixOf(as[i].tag, sl.b)} IN
+            IF fit = {} THEN Bad
+            ELSE LET a == as[CHOOSE i \in fit : \A j \in fit : Len(as[j].tag) <= Len(as[i].tag)] IN DecFields(a, TakeB(sl, Len(a.tag)))
+      [] t.k = "HmE" ->
+            LET d == DecBits(sl, 1) IN
+            IF ~d.ok THEN Bad
+            ELSE IF d.v = <<0>> THEN Good(<<>>, d.sl)
+            ELSE IF d.sl.r = <<>> \/ IsExotic(d.sl.r[1]) THEN Bad
+            ELSE LET e == DecDict(SlOf(d.sl.r[1]), t.n, <<>>, t.t) IN
+                 IF e.ok /\ EmptySl(e.sl) THEN Good(e.v, TakeR(d.sl, 1)) ELSE Bad
+      [] t.k = "Hm" -> DecDict(sl, t.n, <<>>, t.t)
+      [] t.k = "HmAug" ->
+            LET e == DecAug(sl, t.n, <<>>, t) IN IF ~e.ok THEN Bad ELSE Good([es |-> e.v, post |-> e.post], e.sl)
+      [] t.k = "HmAugE" ->
+            LET d == DecBits(sl, 1) IN
+            IF ~d.ok THEN Bad
+            ELSE IF d.v = <<0>> THEN LET x == DecT(t.x, d.sl, ctx) IN IF ~x.ok THEN Bad ELSE Good([es |-> <<>>, post |-> <<>>, rx |-> x.v], x.sl)
+            ELSE IF d.sl.r = <<>> \/ IsExotic(d.sl.r[1]) THEN Bad
+            ELSE LET e == DecAug(SlOf(d.sl.r[1]), t.n, <<>>, t) IN
+                 IF ~(e.ok /\ EmptySl(e.sl)) THEN Bad
+                 ELSE LET x == DecT(t.x, TakeR(d.sl, 1), ctx) IN
+                      IF ~x.ok THEN Bad ELSE Good([es |-> e.v, post |-> e.post, rx |-> x.v], x.sl)
+      [] t.k = "If" -> IF ctx[t.fl] = <<1>> THEN DecT(t.t, sl, ctx) ELSE Good(<<>>, sl)
+      [] t.k = "IfBit" -> IF FlagBit(ctx[t.fl], t.bit) = 1 THEN DecT(t.t, sl, ctx) ELSE Good(<<>>, sl)
+      [] t.k = "RefPick" ->
+            IF sl.r = <<>> \/ IsExotic(sl.r[1]) THEN Bad
+            ELSE LET one == ctx[t.fl] = <<1>>
+                     d == DecT(IF one THEN t.t1 ELSE t.t0, SlOf(sl.r[1]), ctx) IN
+                 IF d.ok /\ EmptySl(d.sl) THEN Good(IF one THEN [v0 |-> <<>>, v1 |-> d.v] ELSE [v0 |-> d.v, v1 |-> <<>>], TakeR(sl, 1)) ELSE Bad
+\* hm_edge: label, then hmn_leaf (value) when no key bits remain, else hmn_fork (two references).  Any label kind.
+DecDict(sl, m, pfx, t) ==
+    LET L == ReadLabel(sl.b, m) IN
+    IF ~L.ok THEN Bad
+    ELSE LET p == pfx \o L.s  m2 == m - L.n  rest == TakeB(sl, L.used) IN
+    IF m2 = 0 THEN LET d == DecT(t, rest, <<>>) IN IF ~d.ok THEN Bad ELSE Good(<<[k |-> p, v |-> d.v]>>, d.sl)
+    ELSE IF Len(rest.r) < 2 \/ IsExotic(rest.r[1]) \/ IsExotic(rest.r[2]) THEN Bad
+    ELSE LET a == DecDict(SlOf(rest.r[1]), m2 - 1, Append(p, 0), t)
+             b == DecDict(SlOf(rest.r[2]), m2 - 1, Append(p, 1), t) IN
+         IF a.ok /\ b.ok /\ EmptySl(a.sl) /\ EmptySl(b.sl) THEN Good(a.v \o b.v, TakeR(rest, 2)) ELSE Bad
+\* ahm_edge: label; ahmn_leaf extra:Y value:X; ahmn_fork left:^ right:^ extra:Y.  post = extras in depth-first order.
+DecAug(sl, m, pfx, t) ==
+    LET L == ReadLabel(sl.b, m) IN
+    IF ~L.ok THEN Bad
+    ELSE LET p == pfx \o L.s  m2 == m - L.n  rest == TakeB(sl, L.used) IN
+    IF m2 = 0
+    THEN LET x == DecT(t.x, rest, <<>>) IN
+         IF ~x.ok THEN Bad
+         ELSE LET d == DecT(t.t, x.sl, <<>>) IN
+              IF ~d.ok THEN Bad ELSE [ok |-> TRUE, v |-> <<[k |-> p, v |-> d.v, x |-> x.v]>>, post |-> <<x.v>>, sl |-> d.sl]
+    ELSE IF Len(rest.r) < 2 \/ IsExotic(rest.r[1]) \/ IsExotic(rest.r[2]) THEN Bad
+    ELSE LET a == DecAug(SlOf(rest.r[1]), m2 - 1, Append(p, 0), t)
+             b == DecAug(SlOf(rest.r[2]), m2 - 1, Append(p, 1), t) IN
+         IF ~(a.ok /\ b.ok /\ EmptySl(a.sl) /\ EmptySl(b.sl)) THEN Bad
+         ELSE LET x == DecT(t.x, TakeR(rest, 2), <<>>) IN
+              IF ~x.ok THEN Bad ELSE [ok |-> TRUE, v |-> a.v \o b.v, post |-> a.post \o b.post \o <<x.v>>, sl |-> x.sl]
+\* a cell holding exactly one value of the named type
+Decode(nm, tree) == LET d == DecT(Named(nm), SlOf(tree), <<>>) IN IF d.ok /\ EmptySl(d.sl) THEN d ELSE Bad
+
 \* ---- tags of a type are prefix-free (a parser can decide the alternative)
-IsPrefixOf(a, b) == Len(a) <= Len(b) /\ SubSeq(b, 1, Len(a)) = a
 TagsPrefixFree(nm) == \A i, j \in 1..Len(Schema[nm]) : i # j => ~IsPrefixOf(Schema[nm][i].tag, Schema[nm][j].tag)
 =============================================================================
